@@ -71,6 +71,18 @@ def run(ck):
     upd = [s for s in ast.walk(gl) if isinstance(s, ast.Expr) and call_attr(s.value) == 'update' and u(s.value.func.value) == 'n_idxs']
     ck.ob('MPT-label', mod.loc(gl), len(nd) == 1 and u(nd[0].value) == 'set()' and len(upd) == 1 and 'resid_to_idxs[' in u(upd[0]),
           'the touched residues are all residues of the anchors of the group', key='MPT-label|touched')
+    # the search space of a group is exactly what gets labelled afterwards: the atoms of the touched residues that are still there (not the whole molecule:
+    # a modification placed with a context atom in a neighbouring residue would touch a residue that is never labelled)
+    sp = {}
+    for fname in ('allowed_ptms', 'identify_ptms'):
+        cs = [c for c in ast.walk(gl) if isinstance(c, ast.Call) and call_name(c) == fname]
+        if len(cs) == 1 and cs[0].args:
+            a0 = cs[0].args[0]
+            d0 = single_def(fp, a0.id) if isinstance(a0, ast.Name) else a0
+            sp[fname] = u(d0) if d0 is not None else u(a0)
+    ck.ob('MPT-label', mod.loc(gl), sp == {'allowed_ptms': 'molecule.subgraph(n_idxs - removed)', 'identify_ptms': 'molecule.subgraph(n_idxs - removed)'},
+          'candidate modifications are looked for, and the cover is made, on the sub-graph of the touched residues minus the atoms already removed ({})'.format(sp),
+          key='MPT-label|search-space')
     # canonical names / attribute changes
     ren = stmts_with_env(fp, lambda s: isinstance(s, ast.Assign) and u(s.targets[0]) == 'mol_node[attr]')
     ok = len(ren) == 1
